@@ -31,7 +31,7 @@ fn check_data(t: &VsTest, i: usize, k: u16, off: usize, size: usize) {
     }
 }
 
-// @verif id=VS.send.one props=C05,C01,C14,C06,C11 tier=quick timeout=900
+// @verif id=VS.send.one props=C05,C01,C14,C06,C11,C09 tier=quick timeout=900
 // @functions VirtualSocket::send_tx_queue, send_data! macro, Segments::iter_mut_for_sending, Segments::calc_flight_size, utils::prepare_2_ioslices, SegmentForSending::on_sent, UtpSocket::try_poll_send_to_vectored
 // @bounds one never-sent 4-byte segment whose bytes wrap in the ring (symbolic content); peer window ANY u32; controller window ANY u32; not in recovery, no RTO pending; sequence numbers at the 16-bit wrap; payload byte compared at ANY index
 // @asserts the segment is sent iff it fits min(controller window, peer window); bytes outstanding afterwards never exceed the peer's advertised window nor the controller window; zero window => nothing sent; the datagram is ST_DATA with the segment's sequence number, payload == the segment's bytes, length == 20 + size; marked sent once; last_sent/seq_nr advance; retransmission timer armed at now + RTO
@@ -81,7 +81,7 @@ fn vs_send_one_segment_within_windows() {
 }
 }
 
-// @verif id=VS.send.two props=C05,C01,C14,C11 tier=quick timeout=1200 mem=16
+// @verif id=VS.send.two props=C05,C01,C14,C11,C09 tier=quick timeout=1200 mem=16
 // @functions VirtualSocket::send_tx_queue, send_data! macro, Segments::iter_mut_for_sending, utils::prepare_2_ioslices
 // @bounds one 4-byte segment already in flight, a never-sent 3-byte segment behind it (7 buffered bytes wrapping in the ring); controller window 1024; peer window ANY 0..=16
 // @asserts the second segment is sent iff 4 + 3 <= peer window (bytes in flight count against the advertised window); it carries the NEXT sequence number and exactly its own byte range (stream offset 4); the in-flight segment is not re-sent; outstanding bytes <= peer window unless they already were above it (window shrank)
@@ -228,7 +228,7 @@ fn vs_send_nothing_in_rto_mode() {
 }
 }
 
-// @verif id=VS.send.finrto props=C06,C17 tier=quick timeout=1200 mem=16
+// @verif id=VS.send.finrto props=C06,C17,C09 tier=quick timeout=1200 mem=16
 // @functions VirtualSocket::send_tx_queue (RTO branch without data), VirtualSocket::maybe_send_fin
 // @bounds FinWait1 or LastAck with the own FIN (OUR_SEQ-1) sent and unacknowledged, no data outstanding, retransmission timer expired; or Established with nothing outstanding and an expired timer
 // @asserts the FIN is retransmitted (same sequence number), the timeout is backed off and the timer restarted; with nothing outstanding the timer is simply switched off and nothing is sent
